@@ -117,42 +117,46 @@ def reSplit (s : List Nat) : List (List Nat) := reSplitAux s [] false
 
 def digitsVal (ds : List Nat) : Nat := ds.foldl (fun a d => 10 * a + (d - 48)) 0
 
+/-- optional leading sign of a numeric token: (is negative, rest) -/
+def signSplit (t : List Nat) : Bool × List Nat :=
+  match t with
+  | c :: r => if c == cMinus then (true, r) else if c == cPlus then (false, r) else (false, t)
+  | [] => (false, [])
+
+/-- value of `sign digits` as numpy stores it in a C long, classified -/
+def intOfParts (neg : Bool) (ds : List Nat) : Except Wire.Err Cell :=
+  if ds.isEmpty || !ds.all isDigit then .error .ValueError
+  else if (!neg && digitsVal ds ≥ 2^63) || (neg && digitsVal ds > 2^63) then .error .Other
+  else if digitsVal ds == 0 then .ok Cell.zero
+  else if digitsVal ds == 1 && !neg then .ok Cell.one
+  else .ok Cell.other
+
 /-- Python `int(tok)` on a token made of `[0-9+-]` only: optional sign, at least one digit.
     Values outside the C long range raise OverflowError (`Other`). -/
 def parseIntTok (t : List Nat) : Except Wire.Err Cell :=
-  let (neg, ds) := match t with
-    | c :: r => if c == cMinus then (true, r) else if c == cPlus then (false, r) else (false, t)
-    | [] => (false, [])
-  if ds.isEmpty || !ds.all isDigit then .error .ValueError
-  else
-    let v := digitsVal ds
-    if (!neg && v ≥ 2^63) || (neg && v > 2^63) then .error .Other
-    else if v == 0 then .ok Cell.zero
-    else if v == 1 && !neg then .ok Cell.one
-    else .ok Cell.other
+  intOfParts (signSplit t).1 (signSplit t).2
 
-/-- Python `float(tok)` on a token made of `[0-9+-.]` only:  `[+-]? (D+ ('.' D*)? | '.' D+)`.
-    The decimal value `v = I.F` is rounded to the nearest double, ties to even; so the result
-    equals 1.0 iff `1 - 2^-54 ≤ v ≤ 1 + 2^-53` and equals ±0.0 iff `v ≤ 2^-1075`. -/
-def parseFloatTok (t : List Nat) : Except Wire.Err Cell :=
-  let (neg, body) := match t with
-    | c :: r => if c == cMinus then (true, r) else if c == cPlus then (false, r) else (false, t)
-    | [] => (false, [])
-  let ip := body.takeWhile isDigit
-  let rest := body.dropWhile isDigit
-  let (fp, ok) := match rest with
-    | [] => (([] : List Nat), !ip.isEmpty)
-    | c :: r => if c == cDot && r.all isDigit && !(ip.isEmpty && r.isEmpty) then (r, true) else ([], false)
+/-- fractional digits after the integer part, and whether the unsigned body is well formed:
+    `D+ ('.' D*)? | '.' D+` -/
+def fracPart (ip rest : List Nat) : List Nat × Bool :=
+  match rest with
+  | [] => ([], !ip.isEmpty)
+  | c :: r => if c == cDot && r.all isDigit && !(ip.isEmpty && r.isEmpty) then (r, true) else ([], false)
+
+/-- the decimal value `num / 10^k` rounded to the nearest double (ties to even) equals 1.0 iff
+    `1 - 2^-54 ≤ v ≤ 1 + 2^-53` and equals ±0.0 iff `v ≤ 2^-1075` -/
+def floatOfParts (neg : Bool) (num k : Nat) (ok : Bool) : Except Wire.Err Cell :=
   if !ok then .error .ValueError
-  else
-    -- v = num / 10^|fp|
-    let num := digitsVal (ip ++ fp)
-    let den := 10 ^ fp.length
-    -- v ≤ 2^-1075  ⇔  num * 2^1075 ≤ den
-    if num * 2^1075 ≤ den then .ok Cell.zero
-    -- 1 - 2^-54 ≤ v ≤ 1 + 2^-53  ⇔  (2^54 - 1) den ≤ 2^54 num  ∧  2^53 num ≤ (2^53 + 1) den
-    else if !neg && (2^54 - 1) * den ≤ 2^54 * num && 2^53 * num ≤ (2^53 + 1) * den then .ok Cell.one
-    else .ok Cell.other
+  else if num * 2^1075 ≤ 10 ^ k then .ok Cell.zero
+  else if !neg && (2^54 - 1) * 10 ^ k ≤ 2^54 * num && 2^53 * num ≤ (2^53 + 1) * 10 ^ k then .ok Cell.one
+  else .ok Cell.other
+
+/-- Python `float(tok)` on a token made of `[0-9+-.]` only:  `[+-]? (D+ ('.' D*)? | '.' D+)` -/
+def parseFloatTok (t : List Nat) : Except Wire.Err Cell :=
+  let body := (signSplit t).2
+  let ip := body.takeWhile isDigit
+  let fp := fracPart ip (body.dropWhile isDigit)
+  floatOfParts (signSplit t).1 (digitsVal (ip ++ fp.1)) fp.1.length fp.2
 
 def parseNum (tok : List Nat → Except Wire.Err Cell) (s : List Nat) : Except Wire.Err Parsed := do
   let rows := (splitOn cSemi s).map (fun item => reSplit (strip item))
